@@ -18,6 +18,8 @@ import (
 // ------------------------------------------------------------------------------------------------
 // C18 — price and holder attestations need a distinct-validator quorum.
 type C18 struct {
+	absent    map[uint64]bool   // epochs in which some accepted holders claim carried no list at all
+	prevPrice map[string]string // price name -> stored value after the previous change
 	BaseOracle
 	prices  map[uint64]map[string]map[string]*big.Rat // epoch -> validator -> name -> latest value
 	holders map[uint64]map[string]string              // epoch -> validator -> canonical list
@@ -111,6 +113,12 @@ func (o *C18) AfterTx(w *World, r *TxResult) {
 		}
 		// a claim whose list is absent reports "no holders", the same list as an empty one
 		o.holders[m.Epoch][val] = canonHolders(m.Holders)
+		if m.Holders == nil {
+			if o.absent == nil {
+				o.absent = map[uint64]bool{}
+			}
+			o.absent[m.Epoch] = true // such a claim can make the whole holder attestation of its epoch fail on its own
+		}
 	}
 }
 
@@ -120,6 +128,29 @@ func (o *C18) AfterEnd(w *World) {
 	height := w.N().Header.Height
 	pChanged, hChanged := !bytes.Equal(p, o.lastP), !bytes.Equal(h, o.lastH)
 	o.lastP, o.lastH = p, h
+	if height%5 == 0 && !w.Tainted && !o.absent[st.OracleEpoch()-1] {
+		// a list that three quarters of the voting power reported identically in the epoch that just ended
+		// is the adopted list from now on (an older list must not stay in force)
+		ep := st.OracleEpoch() - 1
+		byList := map[string]int64{}
+		for _, v := range sortedKeys(o.holders[ep]) {
+			if va, err := sdk.ValAddressFromBech32(v); err == nil {
+				if vv := st.Validator(va); vv != nil && vv.Status == stakingtypes.Bonded {
+					byList[o.holders[ep][v]] += st.LastValidatorPower(va)
+				}
+			}
+		}
+		tot := st.LastTotalPower()
+		for _, l := range sortedKeys(byList) {
+			if tot.IsPositive() && sdk.NewInt(byList[l]).MulRaw(100).GTE(tot.MulRaw(75)) {
+				w.St.Check("C18:holders-follow-quorum")
+				if got := canonHolders(st.OracleHolders()); got != l {
+					w.Fail("C18", "holders-two-thirds", "not-adopted", fmt.Sprintf("validators holding %d of %s voting power reported the identical holder list [%s] in epoch %d, but the list in force is [%s]", byList[l], tot, l, ep, got))
+					return
+				}
+			}
+		}
+	}
 	if !pChanged && !hChanged {
 		return
 	}
@@ -176,6 +207,15 @@ func (o *C18) AfterEnd(w *World) {
 					w.Fail("C18", "median-bounds", "unreported", fmt.Sprintf("price %s=%s was stored although no counted report names it", pr.Name, pr.Value))
 					return
 				}
+				// the quorum is owed per price: the validators that reported THIS price hold 66 % (a claim that
+				// leaves a price out says nothing about it)
+				if old, had := o.prevPrice[pr.Name]; !had || old != pr.Value.String() {
+					w.St.Check("C18:quorum-per-price")
+					if sdk.NewInt(wsum).MulRaw(100).LT(total.MulRaw(66)) {
+						w.Fail("C18", "distinct-quorum", "per-price", fmt.Sprintf("price %s changed to %s at epoch %d although the validators that reported it hold only %d of %s voting power", pr.Name, pr.Value, epoch, wsum, total))
+						return
+					}
+				}
 				// weight strictly below / strictly above must each be <= 1/2 + slack
 				below, above := int64(0), int64(0)
 				eps := new(big.Rat).SetFrac64(1, 1_000_000_000_000_000_000) // Dec rounding of an averaged pair
@@ -199,6 +239,12 @@ func (o *C18) AfterEnd(w *World) {
 					return
 				}
 			}
+		}
+	}
+	if np := st.OraclePrices(); np != nil {
+		o.prevPrice = map[string]string{}
+		for _, pr := range np.List {
+			o.prevPrice[pr.Name] = pr.Value.String()
 		}
 	}
 	if hChanged {
